@@ -143,7 +143,7 @@ func (i *interpreter) decodeInto(t types.Type, addr *value, g interface{}) strin
 		return ""
 	case *types.Slice:
 		if b, ok := u.Elem().Underlying().(*types.Basic); ok && b.Kind() == types.Uint8 {
-			return "[]byte targets are not supported by the engine's decoder"
+			panic(engErr("engine decoder: []byte targets are not supported"))
 		}
 		l, ok := g.([]interface{})
 		if !ok {
@@ -194,7 +194,7 @@ func (i *interpreter) decodeInto(t types.Type, addr *value, g interface{}) strin
 			return ""
 		}
 	}
-	return "engine decoder: unsupported target type " + t.String()
+	panic(engErr("engine decoder: unsupported target type %s", t))
 }
 
 func (i *interpreter) decodeStruct(u *types.Struct, st structure, m map[string]interface{}) string {
@@ -336,6 +336,9 @@ func init() {
 	intrinsics["sigs.k8s.io/yaml.Marshal"] = func(fr *frame, args []value) value {
 		g, e := fr.i.toGeneric(fr, args[0].(iface).t, args[0].(iface).v, 0)
 		if e != "" {
+			if strings.HasPrefix(e, "engine encoder:") {
+				panic(engErr("yaml.Marshal: %s", e)) // an engine limitation is never a program error
+			}
 			return tuple{[]value(nil), fr.i.mkError(e)}
 		}
 		jb, err := json.Marshal(g)
@@ -351,6 +354,9 @@ func init() {
 	intrinsics["encoding/json.Marshal"] = func(fr *frame, args []value) value {
 		g, e := fr.i.toGeneric(fr, args[0].(iface).t, args[0].(iface).v, 0)
 		if e != "" {
+			if strings.HasPrefix(e, "engine encoder:") {
+				panic(engErr("json.Marshal: %s", e))
+			}
 			return tuple{[]value(nil), fr.i.mkError(e)}
 		}
 		jb, err := json.Marshal(g)
